@@ -238,6 +238,13 @@ def main():
             if ck.thorough and S_ <= 3:
                 with ck.section(f"rollout@{kind},S={S_},no-timelimit"):
                     check_rollout(ck, kind, False, S_)
+    # `masks ... are the ones recorded and applied`: above, the policy is uninterpreted and `applied` means the offered mask is the operand of the policy call
+    # whose action / value / log-probability are stored.  That the library's own actor-critic policy honours the mask it is handed (every maskable action
+    # space kind) is shown by the actor-critic obligations of C16, discharged here as part of this clause.
+    from props import C16
+    for case in C16.space_cases(3)[:(3 if ck.thorough else 2)]:
+        with ck.section(f"mask_applied_by_the_real_policy.{case.name}"):
+            C16.sec_ac(ck, case)
     ck.finish("AbstractActorCriticOnPolicyAlgorithm.step and collect_rollout are traced over an uninterpreted environment (optionally under a TimeLimit with "
               "symbolic limit and count) and an uninterpreted stateful actor-critic policy, from an arbitrary carried state. Every field of the stored row, the "
               "carried state, the reward/bootstrapping rule (gamma*V(successor observation) iff truncated and not terminated), the done flag, resets and "
